@@ -731,8 +731,12 @@ func (w *Wallet) recovery(chainClient chain.Interface,
 		scopedMgrs[scopedMgr.Scope()] = scopedMgr
 	}
 	err := walletdb.View(w.db, func(tx walletdb.ReadTx) error {
+		// Watch every output we know for spends, including the ones
+		// that are currently leased: a spend of a leased output that is
+		// missed here is never seen again, as recovery moves the sync
+		// point past its block.
 		txMgrNS := tx.ReadBucket(wtxmgrNamespaceKey)
-		credits, err := w.TxStore.UnspentOutputs(txMgrNS)
+		credits, err := w.TxStore.OutputsToWatch(txMgrNS)
 		if err != nil {
 			return err
 		}
